@@ -4,7 +4,7 @@ From DV Require Import Base.Prelude Model.NameM Model.ZoneTextM.
 From DV Require Import Proofs.ZoneTextBase Proofs.ZoneTextInv Proofs.ZoneTextRespell Proofs.ZoneTextLex
   Proofs.ZoneTextAcc Proofs.ZoneTextRecord Proofs.ZoneTextSweep Proofs.ZoneTextRoundtrip Proofs.ZoneTextNames
   Proofs.ZoneTextParens Proofs.ZoneTextRead Proofs.ZoneTextGenerate Proofs.ZoneTextWf
-  Proofs.ZoneTextRdata.
+  Proofs.ZoneTextRdata Proofs.ZoneTextStruct.
 From DV Require Import Proofs.NameValid Proofs.NameText.
 From Coq Require Import Permutation.
 Open Scope Z_scope.
@@ -81,6 +81,27 @@ Theorem quoted_string_roundtrip : forall x, Forall is_octet x ->
   tok_unescape (escapify_q x) = Ok x /\ q_clean (escapify_q x) = true.
 Proof. intros x H. split; [apply unescape_escapify|apply escapify_q_clean]; exact H. Qed.
 Print Assumptions quoted_string_roundtrip.
+
+(* WRITE THEN READ, all hypotheses structural.  For zones over the modelled field-list types and
+   the default name style (names printed as stored): every zone with pairwise different valid
+   owner names stored in the zone's form (relative under the origin / absolute inside it),
+   non-empty nodes and rdatasets, one rdataset per type, no duplicate records, singleton types
+   holding one record, SOA at the origin only, CNAME not mixed with other data and in-range fields
+   (`zone_struct`) is printed and read back unchanged - relativized and absolute zones, every
+   lossless style, sorted or not, origin given or taken from $ORIGIN. *)
+Theorem zone_roundtrip_fields : forall (c : cfg) (st : style) (zo : name),
+  Valid zo /\ AllBytes zo /\ is_absolute zo = true -> st_origin st = None ->
+  forall nodes : zone,
+  lossless st -> 0 <= c_class c <= 65535 ->
+  (c_origin c = Some zo \/ (c_origin c = None /\ st_want_origin st = true)) ->
+  zone_struct c zo nodes ->
+  (c_check c = true -> check_origin c (Some zo) (printed_order st nodes) = Ok tt) ->
+  exists text,
+    zone_text st (mkpz (Some zo) (c_rel c) (c_class c) nodes) = Ok text /\
+    from_text c text = Ok (match printed_order st nodes with [] => c_origin c | _ => Some zo end,
+                           printed_order st nodes).
+Proof. exact zone_roundtrip_fields_proof. Qed.
+Print Assumptions zone_roundtrip_fields.
 
 (* The well-formedness hypothesis does not depend on the order of the names: `zone_wf` (pairwise
    different names + a condition on each name alone) implies `nodes_wf` for every permutation, in
@@ -336,4 +357,65 @@ Proof.
   - left. split; reflexivity.
   - eexists _, _, _. split; [vm_compute; reflexivity|]. split; [vm_compute; reflexivity|].
     split; vm_compute; reflexivity.
+Qed.
+
+(* non-vacuity of zone_roundtrip_fields: the structural hypotheses hold for the example zone *)
+Ltac le_c := vm_compute; first [reflexivity | intros HH; discriminate HH].
+Ltac solve_forall tac := repeat (apply Forall_cons; [tac|]); apply Forall_nil.
+Ltac cmp := vm_compute; first [reflexivity | exact Logic.I].
+Ltac solve_valid := apply validate_iff; vm_compute; reflexivity.
+Ltac solve_bytes := apply AllBytes_dec; vm_compute; reflexivity.
+
+Example rt_struct : zone_struct rt_cfg ex_origin rt_nodes.
+Proof.
+  assert (Vns : Valid ns_ /\ AllBytes ns_) by (split; [solve_valid|solve_bytes]).
+  assert (Vnsx : Valid (ns_ ++ ex_origin)) by solve_valid.
+  assert (Nns : name_field_ok true ex_origin ns_).
+  { split; [apply Vns|]. split; [apply Vns|]. left. split; [reflexivity|exact Vnsx]. }
+  split.
+  - repeat (constructor; [solve_forall ltac:(vm_compute; reflexivity)|]). constructor.
+  - unfold rt_nodes. apply Forall_cons; [|apply Forall_cons; [|apply Forall_cons; [|apply Forall_nil]]].
+    + (* apex *)
+      split; [discriminate|]. split.
+      { split; [solve_valid|]. split; [solve_bytes|]. split; [reflexivity|solve_valid]. }
+      cbn [rdss_struct fst snd].
+      split; [constructor|]. split; [cmp|]. split.
+      { eexists _, _. split; [reflexivity|]. split; [discriminate|]. split; [reflexivity|]. split; [discriminate|].
+        split; [split; le_c|]. split; [intros _; reflexivity|]. split; [intros _; eexists; reflexivity|].
+        cbn [rdatas_struct rdatas]. split; [|split; [reflexivity|exact Logic.I]].
+        cbn [rdata_fits fval_ok]. split; [exact Nns|]. split.
+        { split; [solve_valid|]. split; [solve_bytes|]. left. split; [reflexivity|solve_valid]. }
+        repeat (split; [split; le_c|]). exact Logic.I. }
+      split; [solve_forall ltac:(reflexivity)|]. split; [cmp|]. split; [|exact Logic.I].
+      eexists _, _. split; [reflexivity|]. split; [discriminate|]. split; [reflexivity|]. split; [discriminate|].
+      split; [split; le_c|]. split; [intros HH; discriminate HH|]. split; [intros HH; discriminate HH|].
+      cbn [rdatas_struct rdatas app]. split; [cbn [rdata_fits fval_ok]; split; [exact Nns|exact Logic.I]|].
+      split; [reflexivity|]. split; [|split; [vm_compute; reflexivity|exact Logic.I]].
+      cbn [rdata_fits fval_ok]. split; [|exact Logic.I].
+      split; [solve_valid|]. split; [solve_bytes|]. right. split; vm_compute; reflexivity.
+    + (* www *)
+      split; [discriminate|]. split.
+      { split; [solve_valid|]. split; [solve_bytes|]. split; [reflexivity|solve_valid]. }
+      cbn [rdss_struct fst snd]. split; [constructor|]. split; [cmp|]. split; [|exact Logic.I].
+      eexists _, _. split; [reflexivity|]. split; [discriminate|]. split; [reflexivity|]. split; [discriminate|].
+      split; [split; le_c|]. split; [intros HH; discriminate HH|]. split; [intros _; eexists; reflexivity|].
+      cbn [rdatas_struct rdatas]. split; [cbn [rdata_fits fval_ok]; split; [exact Nns|exact Logic.I]|].
+      split; [reflexivity|exact Logic.I].
+    + (* ns *)
+      split; [discriminate|]. split.
+      { split; [apply Vns|]. split; [apply Vns|]. split; [reflexivity|exact Vnsx]. }
+      cbn [rdss_struct fst snd]. split; [constructor|]. split; [cmp|]. split.
+      { eexists _, _. split; [reflexivity|]. split; [discriminate|]. split; [reflexivity|]. split; [discriminate|].
+        split; [split; le_c|]. split; [intros HH; discriminate HH|]. split; [intros HH; discriminate HH|].
+        cbn [rdatas_struct rdatas app].
+        split; [cbn [rdata_fits fval_ok]; split; [split; vm_compute; reflexivity|exact Logic.I]|].
+        split; [reflexivity|].
+        split; [cbn [rdata_fits fval_ok]; split; [split; vm_compute; reflexivity|exact Logic.I]|].
+        split; [vm_compute; reflexivity|exact Logic.I]. }
+      split; [solve_forall ltac:(reflexivity)|]. split; [cmp|]. split; [|exact Logic.I].
+      eexists _, _. split; [reflexivity|]. split; [discriminate|]. split; [reflexivity|]. split; [discriminate|].
+      split; [split; le_c|]. split; [intros HH; discriminate HH|]. split; [intros HH; discriminate HH|].
+      cbn [rdatas_struct rdatas]. split; [|split; [reflexivity|exact Logic.I]].
+      cbn [rdata_fits]. split; [discriminate|].
+      solve_forall ltac:(split; [solve_forall ltac:(split; le_c)|le_c]).
 Qed.
